@@ -5,11 +5,11 @@ EXTENDS PyHeap
 
 ListForms == {"append", "appendref", "extend", "insert", "pop", "popi", "remove", "reverse", "sort", "clear", "copy", "iadd",
               "imul", "setitem", "delitem", "getitem", "setslice", "setslice2", "setslicem1", "delslice", "delslice2",
-              "delslicem1", "slicecopy", "getslice", "listcopy", "concat", "repeat", "rebind", "contains", "len", "eq",
+              "delslicem1", "slicecopy", "getslice", "listcopy", "concat", "concat2", "repeat", "rebind", "contains", "len", "eq",
               "index", "count", "iter", "next", "forappend", "listcomp"}
 \* the forms that change or copy state (for the deeper graph)
 ListCore == {"append", "appendref", "extend", "iadd", "imul", "setitem", "delitem", "setslice", "delslice", "slicecopy",
-             "listcopy", "concat", "rebind", "sort", "iter", "next", "forappend", "eq", "insert", "pop", "remove", "reverse",
+             "listcopy", "concat", "concat2", "rebind", "sort", "iter", "next", "forappend", "eq", "insert", "pop", "remove", "reverse",
              "clear", "copy"}
 \* mutation during iteration: iterator creation/advance interleaved with growth and shrinkage
 IterForms == {"iter", "next", "append", "delitem", "insert", "pop", "clear"}
